@@ -118,7 +118,7 @@ def run_real(pool, depth: int, jobs: list) -> list:
     return out
 
 
-ROOT = {"k": "init", "a": 0, "b": 0, "ts": 0, "view": [], "ilog": [], "exc": "", "note": ""}
+ROOT = {"k": "init", "a": 0, "b": 0, "ts": 0, "view": [], "ilog": [], "le": 0, "lf": 0, "af": [], "exc": "", "note": ""}
 
 
 def IDENT(step: dict) -> tuple:
@@ -204,7 +204,7 @@ def gateway_conformance(chk: Check, pool, label: str, depth: int, hists: list, s
 
 
 def slim(obs: list[dict]) -> dict:
-    keep = ("k", "a", "b", "ts", "view", "ilog", "exc", "note")
+    keep = ("k", "a", "b", "ts", "view", "ilog", "le", "lf", "af", "exc", "note")
     return {"ev": [{k: o[k] for k in keep} for o in obs]}
 
 
@@ -472,6 +472,58 @@ def random_deep(chk: Check, pool, n: int, stats: dict) -> None:
                                  "final_view": res[0][0][-1]["view"]})
 
 
+def _run_loop_many(args):
+    """Worker: histories with two get_faultlog callers, the calls running as tasks of a real asyncio loop."""
+    logging.disable(logging.CRITICAL)
+    from harness import ext_c19 as X
+    depth, hists, dispatch = args
+    return X.run_histories_loop(hists, depth, dispatch)
+
+
+def two_callers(chk: Check, pool, tier: str, stats: dict) -> None:
+    """Overlapping get_faultlog() calls on one FaultLog (the property's "any mix of ... complete read-throughs" does not
+    say one at a time; Evohome.get_faultlog is a public coroutine and the routine discovery read uses the same one):
+    every interleaving of two calls with ranges from `readers` - the second starts before the first request is
+    answered, between two replies, after the first has returned; every order of the replies - after views that hold
+    nothing / everything / stale positions; each caller judged by clause c over ITS range at ITS return (J20)."""
+    from harness import ext_c19 as X
+    depth = 4 if tier == "quick" else 5
+    # ranges: short of the log / beyond its end (null reply) / not from the top (run, not judged by c); thorough: + exact
+    readers = [(0, 2), (0, depth + 1), (1, 2)] if tier == "quick" else [(0, 2), (0, 3), (0, depth + 1), (1, 2)]
+    if tier == "quick":
+        prefixes = [(), (1, 1, 1), (0, 0, 0), (1, 0, 1, 0, 0)]
+    else:
+        prefixes = [()] + [tuple((m >> i) & 1 for i in range(3)) for m in range(8)] + [(1, 0, 0, 1), (0, 1, 1, 0), (1, 0, 1, 0, 0, 1)]
+    hists = X.two_caller_histories(depth, prefixes, readers)
+    # + one more event while the calls are under way (another device's reply heard, an announcement delivered / lost)
+    rng = random.Random(chk.seed * 104729 + 7)
+    more = X.two_caller_histories(depth, prefixes[1:4], [(0, 2), (0, depth + 1)],
+                                  env=[("reply", 0, 0), ("reply", 2, 0), ("new", 1, 0), ("new", 0, 0)])
+    hists += rng.sample(more, min(len(more), 300 if tier == "quick" else 3000))
+    size = max(1, len(hists) // (WORKERS * 4))
+    done = []
+    for dispatch, sel in ((True, hists), (False, [X.nodispatch(h) for h in hists[::6]])):
+        sel = sorted(set(sel))
+        all_obs = []
+        for part in pool.map(_run_loop_many, [(depth, sel[i:i + size], dispatch) for i in range(0, len(sel), size)]):
+            all_obs.extend(part)
+        done.append(("two-callers" + ("" if dispatch else "-nodispatch"), sel, all_obs))
+    with ThreadPoolExecutor(2) as tp:  # (the two TLC batches side by side: a JVM start costs more than the folding)
+        list(tp.map(lambda x: judge(chk, x[0], depth, x[1], x[2], stats), done))
+    for label, sel, all_obs in done:
+        stats["two_callers"][label] = {"histories": len(sel), "real_steps": sum(len(o) for o in all_obs), "controller_depth": depth,
+                                       "ranges": [list(r) for r in readers],
+                                       "calls_overlapping": sum(1 for h in sel if _overlap(h))}
+    i = next((i for i, h in enumerate(hists) if _overlap(h) and ("r2start", 0, depth + 1) in h and len(h) > 9), 0)
+    stats["samples"].append({"source": "two-callers", "events": [list(e) for e in hists[i]]})
+
+
+def _overlap(h) -> bool:
+    """the second call starts while the first is under way"""
+    ks = [e[0] for e in h]
+    return "r2start" in ks and "rend" in ks and ks.index("r2start") < ks.index("rend")
+
+
 # --------------------------------------------------------------------------------------
 def do_replay(path: str) -> None:
     logging.disable(logging.CRITICAL)
@@ -481,7 +533,10 @@ def do_replay(path: str) -> None:
     events = [tuple(e) for e in rp["events"]]
     depth = rp["depth"]
     print(f"replaying {len(events)} events on a real FaultLog (controller depth {depth}); expected: {rp.get('key')}")
-    obs = X.run_history(events, depth)
+    if any(e[0].startswith("r2") for e in events):  # two callers: the calls run as tasks of a real loop
+        obs = X.run_histories_loop([events], depth, dispatch=rp.get("source", "").find("nodispatch") < 0)[0]
+    else:
+        obs = X.run_history(events, depth)
     for n, (e, o) in enumerate(zip(events, obs), 1):
         print(f"  {n:2d} {e!s:22s} carried ts={o['ts']:<3d} view={dict(map(tuple, o['view']))} "
               f"controller={X.controller_after(events, depth, n)} {o['exc']} {o['note']}")
@@ -507,7 +562,7 @@ def main(tier: str, replay: str | None) -> None:
     logging.disable(logging.CRITICAL)
     chk = Check(PID, tier, "model_checking")
     stats = {"mc": {}, "graph": {}, "sim": {}, "deep": {}, "states": 0, "transitions": 0, "traces": 0,
-             "trace_states": 0, "drift_items": 0, "variant": VARIANTS[0], "gateway": {}, "gateway_loop_exceptions": 0,
+             "trace_states": 0, "drift_items": 0, "variant": VARIANTS[0], "gateway": {}, "two_callers": {}, "gateway_loop_exceptions": 0,
              "gateway_n": 240 if tier == "quick" else 3000, "rejects": collections.Counter(), "outside_quantifier": collections.Counter(), "samples": []}
     tmp = tempfile.mkdtemp(prefix="c19_")
     ctx = mp.get_context("fork")
@@ -522,11 +577,13 @@ def main(tier: str, replay: str | None) -> None:
                 graph_conformance(chk, pool, "MC_FaultLog.cfg", 4, stats, tmp, 2)
                 sim_conformance(chk, pool, "MC_FaultLog_sim.cfg", 6, 150, 60, stats, tmp)
                 random_deep(chk, pool, 60, stats)
+                two_callers(chk, pool, tier, stats)
             else:
                 graph_conformance(chk, pool, "MC_FaultLog.cfg", 4, stats, tmp, 4)
                 graph_conformance(chk, pool, "MC_FaultLog_t.cfg", 5, stats, tmp, 4)
                 sim_conformance(chk, pool, "MC_FaultLog_sim.cfg", 6, 3000, 80, stats, tmp)
                 random_deep(chk, pool, 1500, stats)
+                two_callers(chk, pool, tier, stats)
             for c, fut in side.items():
                 r = fut.result()
                 stats["mc"][c] = {"generated": r.states, "distinct_transitions": r.distinct, "depth": r.depth,
@@ -565,6 +622,7 @@ def main(tier: str, replay: str | None) -> None:
             "whole_gateway_loop_exceptions": stats["gateway_loop_exceptions"],
             "simulation": stats["sim"],
             "random_deep": stats["deep"],
+            "two_callers": stats["two_callers"],
             "clause_trips_on_real_code_by_key": dict(stats["rejects"]),
             "clause_trips_outside_quantifier_cleared_log": dict(stats["outside_quantifier"]),
             "samples": stats["samples"],
